@@ -407,4 +407,129 @@ theorem serve_meets_spec (c : ApiCase) (enc : Bytes → ProdRes) (ebody : Bytes)
         simp only [Bool.not_true, Bool.false_eq_true, if_false, hran, Bool.not_false, Bool.true_and]
         exact hspec
 
+/-! ### the challenge names the realm: different realms, different challenges -/
+
+theorem escapes_injective (a b : Bytes)
+    (h : a.flatMap (fun x => if x == 34 || x == 92 then [92, x] else [x]) =
+         b.flatMap (fun x => if x == 34 || x == 92 then [92, x] else [x])) : a = b := by
+  induction a generalizing b with
+  | nil =>
+    cases b with
+    | nil => rfl
+    | cons y ys =>
+      simp only [List.flatMap_nil, List.flatMap_cons] at h
+      by_cases hy : (y == 34 || y == 92) = true <;> simp [hy] at h
+  | cons x xs ih =>
+    cases b with
+    | nil =>
+      simp only [List.flatMap_nil, List.flatMap_cons] at h
+      by_cases hx : (x == 34 || x == 92) = true <;> simp [hx] at h
+    | cons y ys =>
+      simp only [List.flatMap_cons] at h
+      by_cases hx : (x == 34 || x == 92) = true <;> by_cases hy : (y == 34 || y == 92) = true
+      · simp only [hx, hy, if_true, List.cons_append, List.nil_append, List.cons.injEq, true_and] at h
+        rw [h.1, ih ys h.2]
+      · simp only [hx, hy, if_true, Bool.false_eq_true, if_false, List.cons_append, List.nil_append,
+          List.cons.injEq] at h
+        exact absurd (by simp [← h.1] : (y == 34 || y == 92) = true) hy
+      · simp only [hx, hy, if_true, Bool.false_eq_true, if_false, List.cons_append, List.nil_append,
+          List.cons.injEq] at h
+        exact absurd (by simp [h.1] : (x == 34 || x == 92) = true) hx
+      · simp only [hx, hy, Bool.false_eq_true, if_false, List.cons_append, List.nil_append,
+          List.cons.injEq] at h
+        rw [h.1, ih ys h.2]
+
+theorem goQuote_injective (a b : Bytes) (h : goQuote a = goQuote b) : a = b := by
+  unfold goQuote at h
+  have h1 := List.append_cancel_left (List.append_cancel_right h)
+  exact escapes_injective a b h1
+
+/-- Two challenges are equal only for equal realms: the header *names* the realm. -/
+theorem challenge_injective (a b : Bytes) (h : challenge a = challenge b) : a = b :=
+  goQuote_injective a b (List.append_cancel_left h)
+
+/-- A failed basic-auth attempt for configured realm `r1` is never answered with the challenge of a
+different configured (non-empty) realm `r2`. -/
+theorem challenge_distinguishes_realms (r1 r2 : Bytes) (h1 : r1 ≠ []) (h2 : r2 ≠ [])
+    (h : challenge (effRealm r1) = challenge (effRealm r2)) : r1 = r2 := by
+  have := challenge_injective _ _ h
+  simpa [effRealm, h1, h2] using this
+
+/-! ### the declared success status is the lowest declared 2xx code -/
+
+theorem declaredSuccess_fold (l : List Nat) (acc : Option Nat) (m : Nat)
+    (h : l.foldl (fun acc c => match acc with | none => some c | some m => some (min m c)) acc = some m) :
+    (acc = some m ∨ m ∈ l) ∧ (∀ a, acc = some a → m ≤ a) ∧ ∀ c ∈ l, m ≤ c := by
+  induction l generalizing acc with
+  | nil => simp at h; subst h; simp
+  | cons x xs ih =>
+    simp only [List.foldl_cons] at h
+    obtain ⟨h1, h2, h3⟩ := ih _ h
+    cases acc with
+    | none =>
+      simp only at h1 h2
+      refine ⟨Or.inr ?_, by simp, ?_⟩
+      · rcases h1 with h1 | h1
+        · simp at h1; simp [h1]
+        · simp [h1]
+      · intro c hc
+        rcases List.mem_cons.mp hc with rfl | hc
+        · exact h2 _ rfl
+        · exact h3 c hc
+    | some a =>
+      simp only at h1 h2
+      have hm := h2 _ rfl
+      refine ⟨?_, ?_, ?_⟩
+      · rcases h1 with h1 | h1
+        · simp only [Option.some.injEq] at h1
+          by_cases hax : a ≤ x
+          · left; rw [← h1, Nat.min_eq_left hax]
+          · right; rw [← h1, Nat.min_eq_right (by omega)]; simp
+        · right; simp [h1]
+      · intro a' ha'; cases ha'; omega
+      · intro c hc
+        rcases List.mem_cons.mp hc with rfl | hc
+        · omega
+        · exact h3 c hc
+
+/-- `declaredSuccess` answers a declared 2xx code that no other declared 2xx code is below. -/
+theorem declaredSuccess_is_lowest_2xx (codes : List Nat) (m : Nat) (h : declaredSuccess codes = some m) :
+    m ∈ codes ∧ 200 ≤ m ∧ m < 300 ∧ ∀ c ∈ codes, 200 ≤ c → c < 300 → m ≤ c := by
+  unfold declaredSuccess at h
+  obtain ⟨h1, _, h3⟩ := declaredSuccess_fold _ none m h
+  rcases h1 with h1 | h1
+  · cases h1
+  · have := List.mem_filter.mp h1
+    simp only [Bool.and_eq_true, decide_eq_true_eq] at this
+    refine ⟨this.1, this.2.1, this.2.2, fun c hc h200 h300 => h3 c ?_⟩
+    exact List.mem_filter.mpr ⟨hc, by simp [h200, h300]⟩
+
+/-- and it answers nothing exactly when no 2xx code is declared (default-only responses) -/
+theorem declaredSuccess_none_iff (codes : List Nat) :
+    declaredSuccess codes = none ↔ ∀ c ∈ codes, ¬(200 ≤ c ∧ c < 300) := by
+  unfold declaredSuccess
+  constructor
+  · intro h c hc h2
+    have hmem : c ∈ codes.filter fun c => 200 ≤ c && c < 300 :=
+      List.mem_filter.mpr ⟨hc, by simp [h2.1, h2.2]⟩
+    cases hl : (codes.filter fun c => 200 ≤ c && c < 300) with
+    | nil => simp [hl] at hmem
+    | cons x xs =>
+      rw [hl] at h
+      simp only [List.foldl_cons] at h
+      have : ∀ (l : List Nat) (a : Nat), l.foldl (fun acc c => match acc with | none => some c | some m => some (min m c)) (some a) ≠ none := by
+        intro l; induction l with
+        | nil => simp
+        | cons y ys ih => intro a; simp only [List.foldl_cons]; exact ih _
+      exact this xs x h
+  · intro h
+    have : (codes.filter fun c => 200 ≤ c && c < 300) = [] := by
+      apply List.filter_eq_nil_iff.mpr
+      intro c hc; have := h c hc; simp; omega
+    rw [this]; rfl
+
+example : declaredSuccess [404, 201, 200, 500] = some 200 := by decide
+example : declaredSuccess [404, 500] = none := by decide
+
+
 end RtVerif.C08
